@@ -1,6 +1,8 @@
 import FpgoVerif.Proofs.C19Desc
 import FpgoVerif.Proofs.C19Heap
 import FpgoVerif.Proofs.C19Oracle
+import FpgoVerif.Proofs.C19Builder
+import FpgoVerif.Gen.SortBuilder
 /-! Property theorems for C19 — "Sorting yields an ordered, stable permutation; descriptors sort by key
     list".  All statements are about the definitions of `Model/C19.lean` that the driver executes.
 
@@ -196,6 +198,51 @@ theorem C19_sortInPlace (ds : List (Desc α)) (l : List α) :
   simp only [sortBySortDescriptors, sort, descLess_eq_lexLt]
   exact ⟨sortBy_perm _ l, sortBy_pairwise (lexLt_strictWeak ds) l, sortBy_filter_equiv (lexLt_strictWeak ds) l⟩
 
+/-! ## (3b) builders are values: forked builders sort by their OWN descriptor list -/
+
+/-- Regenerated fact (closing theorem over `Gen/SortBuilder.lean`, re-extracted from sortDescriptor.go on
+    every run): `NewSortDescriptorsBuilder` returns a slice of length 0 and capacity `builderInitCap` = 0,
+    and every `ThenWith…` method appends to the receiver — the two facts the heap model of the builder
+    (`newBuilder`, `thenWith`) assumes. -/
+theorem C19_builder_code_shape :
+    Gen.sortBuilderNew = .lenCap 0 builderInitCap ∧
+    Gen.sortBuilderThenWith =
+      [("ThenWith", .receiver), ("ThenWithFieldName", .receiver), ("ThenWithTransformerFunctor", .receiver)] := by
+  decide
+
+/-- Forking on ANY heap: from a FULL builder slice `p` (len = cap) derive any number of siblings by one
+    `ThenWith…(d)` each.  Afterwards every sibling holds `p`'s descriptors followed by its own `d`, and
+    `p` (and every other slice of an older backing array) reads as before: `ThenWith` returns
+    `prefix ++ [d]` and leaves the receiver's descriptor list intact. -/
+theorem C19_builder_fork {δ : Type} (h : Heap δ) (p : Slice) (ds : List δ)
+    (hfull : p.len = p.cap) (hp : p.len = 0 ∨ p.arr < h.length) :
+    let r := deriveSiblings h p (ds.map (fun d => [d]))
+    r.2.map r.1.read = ds.map (fun d => h.read p ++ [d]) ∧
+    ∀ s' : Slice, (s'.len = 0 ∨ s'.arr < h.length) → r.1.read s' = h.read s' :=
+  deriveSiblings_single p hfull ds h hp
+
+/-- A builder made by `NewSortDescriptorsBuilder()` and at most two `ThenWith…` calls IS full (Go grows
+    0 → 1 → 2), so for every prefix of 1..2 keys and every list of sibling descriptors the builders of
+    the model hold exactly `prefix` and `prefix ++ [d]` — stacks of up to 3 keys, the property's range. -/
+theorem C19_forked_builders {δ : Type} (pre ds : List δ) (hlen : pre.length ≤ 2) :
+    forkedBuilders pre (ds.map (fun d => [d])) = pre :: ds.map (fun d => pre ++ [d]) :=
+  forkedBuilders_single pre ds hlen
+
+/-- If the constructor reserved capacity (`make(SortDescriptorsBuilder[T], 0, 4)`), two siblings of a
+    one-key builder WOULD share a backing array and the first-derived one would hold its sibling's
+    descriptor — this is why `C19_builder_code_shape` pins the capacity. -/
+theorem C19_builder_reserved_capacity_aliases {δ : Type} (a b c : δ) :
+    forkedBuildersCap 4 [a] [[b], [c]] = [[a], [a, c], [a, c]] := by
+  simp [forkedBuildersCap, newBuilderCap, thenWithChain, thenWith, deriveSiblings, Heap.append, Heap.read,
+    Heap.write, growCap]
+
+/-- Latent in the CURRENT code, beyond the property's 1..3 keys: a three-key builder has capacity 4
+    (0 → 1 → 2 → 4), so two FOUR-key builders forked from it alias in the same way. -/
+theorem C19_builder_fork_of_three_keys_aliases {δ : Type} (a b c d e : δ) :
+    forkedBuilders [a, b, c] [[d], [e]] = [[a, b, c], [a, b, c, e], [a, b, c, e]] := by
+  simp [forkedBuilders, forkedBuildersCap, builderInitCap, newBuilderCap, thenWithChain, thenWith, deriveSiblings,
+    Heap.append, Heap.read, Heap.write, growCap]
+
 /-! ## (4) oracle = model: what `judge` accepts is exactly what `handle` answers -/
 
 /-- The judge's oracle evaluates the property's own statement on the observed id sequence
@@ -215,6 +262,10 @@ theorem C19_oracle_desc (ds : List (Desc Rec)) (recs : List Rec) (ids : List Nat
   rw [C19_oracle_accepts_exactly_model (lexLt_strictWeak ds), modelIds, sortBySortDescriptors, descLess_liftDesc]
 
 /-! ## non-vacuity -/
+
+/-- a full builder in a non-trivial heap: the one-key builder `New().ThenWith(d)` -/
+example : (⟨1, 0, 1, 1⟩ : Slice).len = (⟨1, 0, 1, 1⟩ : Slice).cap ∧
+    ((⟨1, 0, 1, 1⟩ : Slice).len = 0 ∨ (⟨1, 0, 1, 1⟩ : Slice).arr < ([[], [7]] : Heap Nat).length) := by decide
 
 /-- a well-formed caller slice that is a window of a larger array with an alias next to it -/
 example : (⟨0, 1, 2, 3⟩ : Slice).off + (⟨0, 1, 2, 3⟩ : Slice).len ≤ ((([[5, 3, 4, 1]] : Heap Nat)).getD 0 []).length := by
